@@ -97,6 +97,12 @@ type SpecMacro struct {
 	Params []string
 	Body   ast.Expr
 	Text   string
+	// Rec: primitive recursion on the first parameter:
+	//   recspec f(k, p...) = ite(k <= 0, base, step)   with f occurring in step only as f(k-1, p...)
+	// Such a definition is total and consistent; applications become an
+	// uninterpreted function (named after the heap versions the body reads)
+	// plus one unfolding of the definition per application.
+	Rec bool
 }
 
 type ContractSet struct {
@@ -376,7 +382,7 @@ func (cs *ContractSet) LoadFile(path, defaultPkg string) {
 			} else {
 				cs.byKey[cur.Key] = cur
 			}
-		case "spec":
+		case "spec", "recspec":
 			// spec name(a, b) = expr
 			m := regexp.MustCompile(`^([A-Za-z_][A-Za-z0-9_]*)\(([^)]*)\)\s*=\s*(.*)$`).FindStringSubmatch(rest)
 			if m == nil {
@@ -395,7 +401,14 @@ func (cs *ContractSet) LoadFile(path, defaultPkg string) {
 					ps = append(ps, strings.Fields(p)[0])
 				}
 			}
-			cs.macros[m[1]] = &SpecMacro{Name: m[1], Params: ps, Body: e, Text: m[3]}
+			sm := &SpecMacro{Name: m[1], Params: ps, Body: e, Text: m[3], Rec: word == "recspec"}
+			if sm.Rec {
+				if err := checkPrimRec(sm); err != nil {
+					fail(fmt.Errorf("%s: %v", src, err))
+					continue
+				}
+			}
+			cs.macros[m[1]] = sm
 		default:
 			if cur == nil {
 				fail(fmt.Errorf("%s: clause %q outside a func block", src, word))
@@ -622,4 +635,47 @@ func (cs *ContractSet) LoadSpecsDir(dir string) {
 	for _, m := range ms {
 		cs.LoadFile(m, "")
 	}
+}
+
+// checkPrimRec: the body is ite(k <= 0, base, step), base does not mention f,
+// and every occurrence of f in step is f(k-1, p1, ..., pn) with the parameters unchanged.
+func checkPrimRec(m *SpecMacro) error {
+	if len(m.Params) == 0 {
+		return fmt.Errorf("recspec %s: needs a recursion parameter", m.Name)
+	}
+	k := m.Params[0]
+	c, ok := m.Body.(*ast.CallExpr)
+	if !ok || exprString(c.Fun) != "ite" || len(c.Args) != 3 {
+		return fmt.Errorf("recspec %s: body must be ite(%s <= 0, base, step)", m.Name, k)
+	}
+	if strings.ReplaceAll(exprString(c.Args[0]), " ", "") != k+"<=0" {
+		return fmt.Errorf("recspec %s: condition must be %s <= 0", m.Name, k)
+	}
+	var err error
+	check := func(e ast.Expr, allow bool) {
+		ast.Inspect(e, func(n ast.Node) bool {
+			call, ok := n.(*ast.CallExpr)
+			if !ok || exprString(call.Fun) != m.Name {
+				return true
+			}
+			if !allow {
+				err = fmt.Errorf("recspec %s: the base case mentions %s", m.Name, m.Name)
+				return false
+			}
+			if len(call.Args) != len(m.Params) || strings.ReplaceAll(exprString(call.Args[0]), " ", "") != k+"-1" {
+				err = fmt.Errorf("recspec %s: recursive calls must be %s(%s-1, ...)", m.Name, m.Name, k)
+				return false
+			}
+			for i := 1; i < len(m.Params); i++ {
+				if exprString(call.Args[i]) != m.Params[i] {
+					err = fmt.Errorf("recspec %s: recursive calls must pass the other parameters unchanged", m.Name)
+					return false
+				}
+			}
+			return true
+		})
+	}
+	check(c.Args[1], false)
+	check(c.Args[2], true)
+	return err
 }
